@@ -545,6 +545,32 @@ def dir1(ctx, c):
           c.check(good, "parse_line:FCC:closing", "closing delimiter = first occurrence after the opening one", "closing delimiter located by %s" % [U(x) for x in find_calls],
                 "the FCC branch finds the closing delimiter with %s; it is the first occurrence of the opening character after position 0 "
                 "(searching from the right turns comment text containing the delimiter into data)" % [U(x) for x in find_calls], repo.loc(pl, fcc))
+        # the text handed to the operand classes is exactly the delimited string: fold the slice for sample operand fields
+        from ..consteval import fold as _fold, NotConst as _NC
+        cfs = [n for n in ast.walk(fcc) if isinstance(n, ast.Call) and U(n.func) == "Operand.create_from_str" and n.args]
+        whole = [n for n in ast.walk(fcc) if isinstance(n, ast.Assign) and isinstance(n.targets[0], ast.Name) and re.fullmatch(r"\w+\.group\('operands'\)", U(n.value))]
+        if cfs and whole:
+            var = whole[0].targets[0].id
+            simple = [n for n in ast.walk(fcc) if isinstance(n, ast.Assign) and isinstance(n.targets[0], ast.Name) and n is not whole[0]
+                      and not any(isinstance(x, ast.Call) and "group" in U(x.func) for x in ast.walk(n.value)) and n.lineno < cfs[0].lineno]
+            bad = None
+            try:
+                for text, want in (("/AB/", "/AB/"), ("/AB/ rest", "/AB/"), ('"A B" c', '"A B"'), ("/AB/x", "/AB/"), ("'Q' 'R'", "'Q'")):
+                    envf = dict(ctx.env)
+                    envf[var] = text
+                    for a_ in sorted(simple, key=lambda n: n.lineno):
+                        envf[a_.targets[0].id] = _fold(a_.value, envf)
+                    got = _fold(cfs[0].args[0], envf)
+                    if got != want:
+                        bad = (text, got, want)
+                        break
+                if bad:
+                    c.finding("parse_line:FCC:slice", "operand field %r gives the string %r" % (bad[0], bad[1]),
+                              "for the operand field %r the FCC branch hands %r to the operand classes; the delimited string is %r" % bad, repo.loc(pl, cfs[0]))
+                else:
+                    c.ok("parse_line:FCC:slice", "the delimited string, delimiters included, nothing after it", repo.loc(pl, cfs[0]))
+            except _NC as e:
+                c.undecided("parse_line:FCC:slice", "slice-not-foldable", str(e)[:80], repo.loc(pl, cfs[0]))
         if "'{} {}'.format(data.group('operands'), data.group('comment').strip())" in t:
             c.finding("parse_line:FCC:reassembly", "string rebuilt from the operands and comment groups with a single space",
                       "the FCC operand is reconstructed as operands + ' ' + comment: the line pattern splits at the first white space or ';', so runs of spaces collapse "
